@@ -4,7 +4,7 @@ import VelaVerif.Spec.Serialise
 import VelaVerif.Handlers.Util
 /-!
 Model requests
-`serial acc=<i> ports=<c><a><k> axi=<area0>,<area1> calls=<area>:<type>/<type>:<total>:<rec>;… sgs=<sg>~<sg>… cops=<callee>:<n other inputs>;…`
+`serial acc=<i> ports=<c><a><k> axi=<area0>,<area1> calls=<area>:<type>/<type>:<total>:<rec>;… sgs=<sg>~<sg>… cops=<callee>:<n other inputs>;… alias=<0|1>`
   `<sg>` = `<isNpu>@<area>:<bytes>,…@<w>.<w>.…@<op>;<op>…`, `<op>` = items joined by `/`:
   `W!<addr|->!<storage>!<hex>` / `S!…` encoded weights / scales, `I!<addr|->!<memtype>!<dtype size>!<item size>!<v<int>.<int>…|->` IFM,
   `J!…` IFM2, `L!…` LUT tensor (`L-` = activation_lut set but no LUT tensor)
@@ -179,7 +179,7 @@ def handle : List String → Option String
         | none => "none"
         | some t => s!"{t.size}:{flashVals.length}:{adler flashVals}:{areaCode t.memArea}:{typeCode t.memType}"
       let ins := cops.map fun (c, n) => ",".intercalate ((rewriteInputs c ((List.range n).map .other)).map fun t => toString (kindOf t))
-      let st := cops.foldl (fun acc (c, _) => startupOutputs c acc) []
+      let st := cops.foldl (fun acc (c, _) => startupOutputs ((kv toks "alias").getD "0" == "1") c acc) []
       some (s!"ok scratch={memStr s} fast={memStr q} flash={fl} cmds=" ++ ",".intercalate cmdStr ++ " ranges=" ++ ",".intercalate ranges ++
             " inputs=" ++ ";".intercalate ins ++ " startup=" ++ ",".intercalate (st.map fun t => toString (kindOf t)))
   | "reported" :: toks => do
